@@ -25,14 +25,17 @@ SHAPES = {
     "D3": [["a.b"], ["a", "b"], ["a0"]],               # full-path order != per-directory order
     "D4": [["d", "c"], ["d", "e", "f"], ["z"], ["b"]],
     "D2n": [["x", "y", "1"], ["x", "2"]],
+    "DN": [["@", "t1"], ["z"]],        # "@" = the payload root's own name (sub-directory named like the root)
+    "DNf": [["@"], ["b"]],             # a file named like the root
 }
 
 
 def mk_tree(shape, sizes, name=None):
     if shape == "S1":
         return {"name": name or "single.bin", "single": True, "files": [{"path": [], "size": sizes[0]}]}
-    paths = SHAPES[shape]
-    return {"name": name or ("t" + shape), "single": False,
+    nm = name or ("t" + shape)
+    paths = [[nm if c == "@" else c for c in p] for p in SHAPES[shape]]
+    return {"name": nm, "single": False,
             "files": [{"path": p, "size": s} for p, s in zip(paths, sizes)]}
 
 
@@ -57,7 +60,7 @@ def gen_trees(tier, rng, plens, quick_n, thorough_n, need_nonempty=True):
         for dl in deltas:
             out.append((rng.choice(("S1", "D1")), (npc * P0 + dl,), P0))
     n = thorough_n if tier == "thorough" else quick_n
-    shapes = ["D3", "D4", "D2n", "D2"]
+    shapes = ["D3", "D4", "D2n", "D2", "DN", "DNf"]
     for _ in range(n):
         P = rng.choice(plens)
         A = alphabet(P)
